@@ -171,3 +171,15 @@ def flows_to_calls(fn, local, _seen=None):
         if src == (local, ()):
             out += flows_to_calls(fn, dl, seen)
     return out
+
+
+def return_terms(fn, tb):
+    """terms of every value assigned to the return place (statements and call destinations): [(b, i|None, term)]"""
+    out = []
+    for b, i, s in stmts(fn):
+        if "a" in s and mk_place(s["a"]) == (0, ()):
+            out.append((b, i, tb.rvalue(s["rv"])))
+    for b, c in call_sites(fn):
+        if mk_place(c["dest"]) == (0, ()):
+            out.append((b, None, tb.call_term(c)))
+    return out
